@@ -118,3 +118,31 @@ Proof.
     repeat match goal with |- context [if ?c then _ else _] => destruct c end; reflexivity.
 Qed.
 Print Assumptions link_limit_checks.
+
+(* ------------------------------------------------------------------ the initialisations at the top of _solve_by_evolution *)
+Lemma link_initial_state : forall (Ind R : Type),
+  gen_initial_state Ind R
+  = (st_ledger _ _ (state0 Ind R), Z.of_nat (st_ngen _ _ (state0 Ind R)), st_term _ _ (state0 Ind R),
+     st_best_ind _ _ (state0 Ind R), st_best_val _ _ (state0 Ind R), st_hist _ _ (state0 Ind R)).
+Proof. intros Ind R. reflexivity. Qed.
+Print Assumptions link_initial_state.
+
+(* ------------------------------------------------------------------ the guard behind the main loop *)
+(* The guard is the first thing `finish` decides once no exception is pending (an exception raised inside the loop
+   propagates past it): whether a result is returned at all, and with which exception class otherwise. *)
+Lemma link_final_guard : forall (Ind R Pop Op W Init Dist AuxEv AV : Type) (cfg : config Ind R Op Init AuxEv)
+    (wd : world Ind R Pop Op W Init Dist AuxEv AV) (s : ls Ind R Pop Op W),
+  match l_err _ _ _ _ _ s with
+  | Some e => Err e
+  | None => gen_final_guard Ind R (st_best_ind _ _ (l_st _ _ _ _ _ s)) (st_best_val _ _ (l_st _ _ _ _ _ s)) (st_hist _ _ (l_st _ _ _ _ _ s))
+  end
+  = match finish Ind R Pop Op W Init Dist AuxEv AV cfg wd s with Ok _ => Ok tt | Err e => Err e end.
+Proof.
+  intros Ind R Pop Op W Init Dist AuxEv AV cfg wd [[l n t bi bv h] pop w tr err].
+  unfold finish, gen_final_guard, py_len.
+  cbn [l_err l_st st_best_ind st_best_val st_hist].
+  destruct err as [e|]; [reflexivity|].
+  destruct bi as [i|]; [|reflexivity]. destruct bv as [v|]; [|reflexivity].
+  destruct h as [|r h]; reflexivity.
+Qed.
+Print Assumptions link_final_guard.
